@@ -1,5 +1,6 @@
 //@file src/half_connection/packet_receiver/assembly_window/fragment_buffer.rs
 //@props C19
+//@no-native-replay the default allocator neither checks dealloc layouts nor reports leaks, so a native run of the counterexample passes silently (that is why the tests cannot see C19); the counterexample values are still extracted
 //@cbmc-args --memory-leak-check
 // C19: allocator contract of the reassembly buffer.  Kani's __rust_dealloc model asserts that the layout passed to
 // dealloc equals the layout of the allocation (this is the check the pre-fix `Box::from_raw` of a shorter slice
